@@ -315,6 +315,21 @@ def run_part(tier, work, mir, which):
         return res
     if cannot:
         res["undischarged"].append({"template": "all", "why": cannot[0][:300]})
+        if which == "ok":
+            # native probe (sampling; discharges nothing): concrete instances of the conforming templates against what they denote
+            for name in sorted(OT):
+                tpl = OT[name]
+                for _ in range(4):
+                    conc = {seg[1]: [pick(seg[3]) if seg[3] != "byte" else rnd.randrange(0, 256) for _ in range(seg[2])] for seg in tpl["segs"] if seg[0] == "hole"}
+                    inp, _, _ = c02_req.instantiate(z3, tpl, conc)
+                    data = bytes(inp)
+                    exp = _expected_concrete(name, data, tier)
+                    nd = mengine.native_eval(exe, ["resp 0 " + (data.hex() or "-")])[0]
+                    if exp is not None and nd != exp:
+                        nr = mengine.native_eval(exe_rel, ["resp 0 " + (data.hex() or "-")])[0]
+                        res["violations"].append({"template": name, "replay": {"request_hex": data.hex(), "text": data.decode("latin-1")[:200], "kind": "value", "failed": "native probe of a conforming response (the engine cannot run this tree)",
+                                                                                 "native_dev": nd[:300], "native_release": nr[:300], "expected": exp[:300], "template": name, "key": "response:value"}})
+                        return res
         if which == "np":
             for (d, e), n in zip(keep, nat):
                 if n == "PANIC":
